@@ -7,7 +7,11 @@ exactly where the format prescribes).
     run becomes one trace line {cfg, rc, geometry read back by an independent superblock parser, backup groups found
     on disk, e2fsck -fn status, verdict of the independent consistency oracle, device writes of `mke2fs -n`,
     reproducibility}.  TLC (Trace_Geometry) accepts a line of an ACCEPTED configuration only if the observed geometry
-    equals Geometry!Compute(cfg) field by field and all other clauses hold."""
+    equals Geometry!Compute(cfg) field by field and all other clauses hold.
+(3) The universe has two parts: the seeded lattice (feature set x block size x group size x boundary sizes x inode options,
+    one option family attached at random) and the boundary catalogue that TLC writes from the specification
+    (Geometry!Ss2Cells: num_backup_sb x group-count class x resize_inode; OptionCells / RaidCells / QuotaCells / UsageCells:
+    the value lattice of every extended-option family).  Every catalogue cell is run in every tier."""
 import os, sys, json, random, shutil, hashlib, itertools, concurrent.futures as cf
 from common import VERIF, fast_tmp, seed, die_broken, NPROC, tool_env
 from common import run as sh
@@ -18,6 +22,7 @@ PID = "C07"
 SPEC = os.path.join(VERIF, "spec")
 UUID = "11112222-3333-4444-5555-666677778888"
 HASH_SEED = "aaaabbbb-cccc-dddd-eeee-ffff00001111"
+KNOWN_DEV_KEY = "rsv_gdt_survives_metabg_switch"
 
 FEATSETS = [
     # (label, fstype, -O string, model?)
@@ -28,6 +33,8 @@ FEATSETS = [
     ("metabg", "ext4", "meta_bg,^resize_inode,64bit", 1),
     ("nosparse", "ext2", "^sparse_super", 1),
     ("ss2", "ext4", "sparse_super2,^resize_inode", 1),
+    ("ss2r", "ext4", "sparse_super2", 1),                       # mke2fs accepts sparse_super2 together with resize_inode
+    ("ss2r2", "ext2", "sparse_super2", 1),
     ("noresize", "ext4", "^resize_inode", 1),
     ("noflex", "ext4", "^flex_bg,metadata_csum", 1),
     ("inline", "ext4", "inline_data,metadata_csum", 1),
@@ -57,23 +64,68 @@ def want_features(fstype, ostr):
     return base
 
 
-# extra option families of the property text; (label, args, keeps the geometry model applicable?, needs journal?)
-EXTRAS = [
-    ("", [], 1, 0), ("", [], 1, 0), ("", [], 1, 0),
-    ("flex1", ["-G", "1"], 1, 0), ("flex2", ["-G", "2"], 1, 0), ("flex16", ["-G", "16"], 1, 0),
-    ("raid", ["-E", "stride=4,stripe_width=8"], 1, 0),
-    ("jsize", ["-J", "size=1"], 1, 1), ("jsize4", ["-J", "size=4"], 1, 1),
-    ("jloc", ["-J", "size=1,location=100"], 1, 1),
-    ("resize", ["-E", "resize=@3x"], 0, 0),
-    ("offset", ["-E", "offset=8192"], 1, 0),
-    ("tree", ["-d", "@tree"], 1, 0),
-    ("rootowner", ["-E", "root_owner=1000:100"], 1, 0),
-    ("m0", ["-m", "0", "-L", "lab"], 1, 0),
-    ("packed", ["-E", "packed_meta_blocks=1"], 1, 0),
-    ("lazy", ["-E", "lazy_itable_init=1,lazy_journal_init=1"], 1, 0),
-    ("nodiscard", ["-E", "nodiscard", "-e", "remount-ro"], 1, 0),
-    ("hugefiles", ["-T", "hugefiles"], 0, 0),
-]
+# Option families.  family(fam, v, c) -> dict(args=[...], eopts=[...], req={...}, cfgmod={...}, model=0/1, journal=0/1)
+#   args: plain options; eopts: -E items; req: the fields the specification predicts (Trace_Geometry!Requested); cfgmod: changes of
+#   the geometry configuration (Geometry cfg record).  The value lattice of each family comes from the specification's catalogue.
+REQ0 = {"stride": 0, "stripe": 0, "flex": 0, "mpct": 5, "jmib": 0, "quota": [], "uid": 0, "gid": 0}
+QOPT = {"usr": "usrquota", "grp": "grpquota", "prj": "prjquota"}
+
+
+def family(fam, v, c):
+    f = dict(args=[], eopts=[], req={}, cfgmod={}, model=1, journal=0, fstype=None, ostr=None)
+    if fam == "":
+        pass
+    elif fam in ("flex", "flex_reject"):
+        f["args"] = ["-G", str(v)]; f["req"] = {"flex": v}
+    elif fam in ("mpct", "mpct_reject"):
+        f["args"] = ["-m", str(v), "-L", "lab"]; f["req"] = {"mpct": v}
+    elif fam == "raid":
+        f["eopts"] = ["stride=%d" % v["stride"]] + (["stripe_width=%d" % v["stripe"]] if v["stripe"] else [])
+        f["req"] = {"stride": v["stride"], "stripe": v["stripe"]}
+    elif fam == "jsize":
+        f["args"] = ["-J", "size=%d" % v]; f["req"] = {"jmib": v}; f["journal"] = 1
+    elif fam == "jloc":
+        f["args"] = ["-J", "size=1,location=100"]; f["req"] = {"jmib": 1}; f["journal"] = 1
+    elif fam == "rszfactor":
+        f["eopts"] = ["resize=%d" % (v * c["blocks"])]; f["cfgmod"] = {"rszto": v * c["blocks"]}
+    elif fam == "nbsb_reject":
+        f["eopts"] = ["num_backup_sb=%d" % v]
+    elif fam == "revision0":                    # the -r option is gone; revision 0 = no features, 128-byte inodes, backups everywhere
+        f["eopts"] = ["revision=0"]; f["fstype"] = "ext2"; f["ostr"] = ""
+        f["cfgmod"] = {"rev0": 1}
+    elif fam == "offset":
+        f["eopts"] = ["offset=8192"]
+    elif fam == "packed":
+        f["eopts"] = ["packed_meta_blocks=1"]
+    elif fam == "rootowner":
+        f["eopts"] = ["root_owner=1000:100"]; f["req"] = {"uid": 1000, "gid": 100}
+    elif fam == "lazy0_nodiscard":
+        f["eopts"] = ["lazy_itable_init=0", "lazy_journal_init=0", "nodiscard"]; f["args"] = ["-e", "remount-ro"]
+    elif fam == "lazy1":
+        f["eopts"] = ["lazy_itable_init=1", "lazy_journal_init=1"]
+    elif fam == "tree":
+        f["args"] = ["-d", "@tree"]; f["req"] = {"uid": -1, "gid": -1}      # the root directory takes the owner of the source directory: no claim
+    elif fam == "quotatype":
+        f["eopts"] = ["quotatype=" + ":".join(QOPT[t] for t in v)]; f["req"] = {"quota": sorted(v)}
+        f["fstype"] = "ext4"; f["ostr"] = "quota,metadata_csum"
+    elif fam == "usage":
+        f["args"] = ["-T", v["name"]]; f["cfgmod"] = {"usage_iratio": v["iratio"] or 16384, "usage_isz": v["isz"] or 256}
+    elif fam == "hugefiles":
+        f["args"] = ["-T", "hugefiles"]; f["model"] = 0
+    else:
+        raise KeyError(fam)
+    return f
+
+
+# families attached at random to the lattice part (value lattices: the specification's catalogue, see universe())
+def lattice_extras(cat):
+    ex = [("", 0)] * 3
+    for o in cat["options"]:
+        if not o["fam"].endswith("_reject"):
+            ex.append((o["fam"], o["v"]))
+    ex += [("raid", r) for r in cat["raid"]]
+    ex += [("usage", u) for u in cat["usage"]]
+    return ex
 
 
 def small_tree(work):
@@ -95,33 +147,102 @@ def small_tree(work):
     return d
 
 
-def universe(tier, rng):
+INODE_OPTS = lambda blocks: [(0, 0, 0), (4096, 128, 0), (65536, 256, 0), (0, 256, 100), (1024, 256, 0),
+                             (0, 128, blocks + blocks // 8), (0, 256, (blocks * 9) // 10)]      # -N large enough for the ipg retry path
+
+
+def mkcfg(label, fstype, ostr, model, bs, bpg, blocks, inode_opt, fam, v, nbsb=2, part="lattice"):
+    iratio, isz, nino = inode_opt
+    return dict(label=label, fstype=fstype, ostr=ostr, model=model, bs=bs, bpg=bpg, blocks=blocks, iratio=iratio, isz=isz,
+                ninodes=nino, fam=fam, v=v, nbsb=nbsb, part=part, extra=fam)
+
+
+def boundary_sizes(bs, bpg, maxblocks):
+    eff = bpg or bs * 8
+    first = 1 if bs == 1024 else 0
+    sizes = set()
+    for k in (1, 2, 3, 4, 8, 9, 10):
+        for d in (-1, 0, 1, 40, 60, 90, 150, 300):
+            sizes.add(first + k * eff + d)
+    sizes |= {300, 1000, 2500, 5000}
+    return sorted(x for x in sizes if 60 <= x <= maxblocks)
+
+
+def catalogue_part(tier, rng, cat):
+    """Every cell of the specification's boundary catalogue, in every tier (quick: seeded choice of the carrier geometry)."""
+    out = []
+    quick = tier == "quick"
+    maxb = lambda bs: ((24 if quick else 64) * 1024 * 1024) // bs
+    # --- sparse_super2 cells: num_backup_sb x group-count class x resize_inode
+    for cell in sorted(cat["ss2"], key=lambda x: (x["nb"], x["groups"], x["resize"])):
+        cands = []
+        for bs, bpg in ((1024, 0), (1024, 1024), (2048, 0), (2048, 2048), (4096, 0), (4096, 2048)):
+            eff = bpg or bs * 8
+            first = 1 if bs == 1024 else 0
+            for rem in (eff, eff - 1, eff // 2 + 7):
+                blocks = first + (cell["groups"] - 1) * eff + rem
+                if blocks <= maxb(bs):
+                    for fstype in ("ext4", "ext2"):
+                        cands.append((bs, bpg, blocks, fstype))
+        rng.shuffle(cands)
+        for (bs, bpg, blocks, fstype) in (cands[:2] if quick else cands):
+            ostr = "sparse_super2" + ("" if cell["resize"] else ",^resize_inode")
+            io = INODE_OPTS(blocks)[rng.randrange(3)]
+            out.append(mkcfg("ss2cell", fstype, ostr, 1, bs, bpg, blocks, io, "", 0, nbsb=cell["nb"], part="ss2cell"))
+    # --- option families: every value of every family on a carrier configuration that can take it
+    plain = [f for f in FEATSETS if f[3] and f[0] not in ("metabg",)]
+    def carriers(need_journal=False, need_flex=False, n=1):
+        ps = [f for f in plain if (not need_journal or f[1] != "ext2") and (not need_flex or (f[1] == "ext4" and "^flex_bg" not in f[2]))]
+        res = []
+        for _ in range(n):
+            (label, fstype, ostr, model) = ps[rng.randrange(len(ps))]
+            bs = (1024, 2048, 4096)[rng.randrange(3)]
+            sz = [x for x in boundary_sizes(bs, 0, maxb(bs)) if x >= 2500]
+            res.append((label, fstype, ostr, bs, sz[rng.randrange(len(sz))]))
+        return res
+    reps = 1 if quick else 6
+    cells = [(o["fam"], o["v"]) for o in cat["options"]] + [("raid", r) for r in cat["raid"]] + \
+            [("quotatype", q) for q in cat["quota"]] + [("usage", u) for u in cat["usage"]]
+    for fam, v in sorted(cells, key=lambda x: json.dumps(x, sort_keys=True)):
+        if fam == "rszfactor":                   # -E resize= against the group sizes where the reserved GDT meets the meta_bg switch
+            for bs in ((1024,) if quick else (1024, 2048, 4096)):
+                for bpg in (0, 256, 1024):
+                    for blocks in (5000, 20000):
+                        (label, fstype, ostr, model) = [f for f in plain if f[0] in ("ext2", "ext4", "noresize")][rng.randrange(3)]
+                        out.append(mkcfg(label, fstype, ostr, 1, bs, bpg, blocks, (0, 0, 0), fam, v, part="optcell"))
+            continue
+        for (label, fstype, ostr, bs, blocks) in carriers(need_journal=fam in ("jsize", "jloc"), need_flex=fam.startswith("flex"), n=reps):
+            io = (0, 0, 0) if fam in ("usage", "revision0") else INODE_OPTS(blocks)[rng.randrange(3)]
+            nb = 2
+            if fam == "nbsb_reject":
+                fstype, ostr = "ext4", "sparse_super2"
+            out.append(mkcfg(label, fstype, ostr, 1, bs, 0, blocks, io, fam, v, nbsb=nb, part="optcell"))
+    return out
+
+
+def universe(tier, rng, cat):
     cfgs = []
     bss = [1024, 2048, 4096]
+    extras = lattice_extras(cat)
+    nbs = sorted(set(c["nb"] for c in cat["ss2"]))
     for (label, fstype, ostr, model) in FEATSETS:
         for bs in bss:
             bpgs = [0, 256, 1024] if bs == 1024 else [0, 2048]
             for bpg in bpgs:
-                eff = bpg or bs * 8
-                first = 1 if bs == 1024 else 0
-                sizes = set()
                 maxblocks = ((24 if tier == 'quick' else 64) * 1024 * 1024) // bs
-                for k in (1, 2, 3, 4, 8, 9, 10):
-                    base = first + k * eff
-                    for d in (-1, 0, 1, 40, 60, 90, 150, 300):
-                        sizes.add(base + d)
-                sizes |= {300, 1000, 2500, 5000}
-                sizes = sorted(s for s in sizes if 60 <= s <= maxblocks)
-                for blocks in sizes:
-                    for (iratio, isz, nino) in [(0, 0, 0), (4096, 128, 0), (65536, 256, 0), (0, 256, 100), (1024, 256, 0),
-                                                (0, 128, blocks + blocks // 8), (0, 256, (blocks * 9) // 10)]:      # -N large enough for the ipg retry path
-                        ex = EXTRAS[rng.randrange(len(EXTRAS))]
-                        if ex[3] and fstype == "ext2":
-                            ex = EXTRAS[0]
-                        if ex[0] == "hugefiles":
-                            continue
-                        cfgs.append(dict(label=label, fstype=fstype, ostr=ostr, model=model & ex[2], bs=bs, bpg=bpg, blocks=blocks,
-                                         iratio=iratio, isz=isz, ninodes=nino, extra=ex[0], extra_args=list(ex[1])))
+                for blocks in boundary_sizes(bs, bpg, maxblocks):
+                    for io in INODE_OPTS(blocks):
+                        fam, v = extras[rng.randrange(len(extras))]
+                        if fam in ("jsize", "jloc") and fstype == "ext2":
+                            fam, v = "", 0
+                        if fam == "flex" and (fstype != "ext4" or "^flex_bg" in ostr):
+                            fam, v = "", 0
+                        if fam in ("revision0", "usage") and (io != (0, 0, 0)):
+                            fam, v = "", 0
+                        if fam == "rszfactor" and "meta_bg" in ostr:
+                            fam, v = "", 0
+                        nb = nbs[rng.randrange(len(nbs))] if "sparse_super2" in ostr else 2
+                        cfgs.append(mkcfg(label, fstype, ostr, model, bs, bpg, blocks, io, fam, v, nbsb=nb))
     rng.shuffle(cfgs)
     n = 320 if tier == "quick" else min(len(cfgs), 12000)
     # stratify quick selection over feature sets
@@ -134,8 +255,72 @@ def universe(tier, rng):
             for k in sorted(by):
                 if by[k] and len(sel) < n:
                     sel.append(by[k].pop())
-        return sel
-    return cfgs[:n]
+    else:
+        sel = cfgs[:n]
+    return sel + catalogue_part(tier, rng, cat)
+
+
+def clip(x):
+    return x if 0 <= x < (1 << 31) else -1
+
+
+def inspect(data, sb, offset):
+    """Raw fields the specification predicts, read straight from the image bytes (no verdict here): s_backup_bgs, RAID fields,
+    flex size, reserved blocks, quota inode numbers, owner of the root inode, size of the journal inode, and the block map of
+    the resize inode (double-indirect block as runs [slot, block, length]; each mapped block's non-zero entries as
+    [position, distance from that block], identical lists merged with a count)."""
+    import struct
+    bs = sb["bs"]
+    raw = data[offset + 1024:offset + 2048]
+    u32 = lambda b, o: struct.unpack_from("<I", b, o)[0]
+    u16 = lambda b, o: struct.unpack_from("<H", b, o)[0]
+    o = {"bgs": [clip(x) for x in sb["backup_bgs"]], "stride": u16(raw, 0x164), "stripe": clip(u32(raw, 0x170)),
+         "logflex": raw[0x174], "rblocks": clip(u32(raw, 8)),
+         "quota": [n for n, k in (("usr", "usr_quota"), ("grp", "grp_quota"), ("prj", "prj_quota")) if sb[k]],
+         "uid": -1, "gid": -1, "jblocks": 0,
+         "rsz": {"dindblk": 0, "dind": [], "lists": [], "iblocks": 0, "other": 0}}
+    is64 = "64bit" in sb["features"]
+    gdb = (1 if bs == 1024 else 0) + 1           # descriptors follow the superblock's block (block 1 for 1 KiB blocks even when s_first_data_block is 0)
+    gd = data[offset + gdb * bs:offset + gdb * bs + 64]
+    if len(gd) < 64:
+        return o
+    it = u32(gd, 8) + ((u32(gd, 0x28) << 32) if is64 and sb["desc_size"] >= 64 else 0)
+    isz = sb["isz"]
+    def inode(n):
+        a = offset + it * bs + (n - 1) * isz
+        return data[a:a + 128]
+    if not (0 < it < sb["blocks"]) or len(inode(8)) < 128:
+        return o
+    root = inode(2)
+    o["uid"] = u16(root, 2) | (u16(root, 120) << 16)
+    o["gid"] = u16(root, 24) | (u16(root, 122) << 16)
+    if sb["journal_inum"] == 8:
+        j = inode(8)
+        o["jblocks"] = clip((u32(j, 4) | (u32(j, 108) << 32)) // bs)
+    r = inode(7)
+    ib = struct.unpack_from("<15I", r, 40)
+    z = o["rsz"]
+    z["dindblk"] = clip(ib[13]); z["iblocks"] = clip(u32(r, 28)); z["other"] = sum(1 for k, x in enumerate(ib) if x and k != 13)
+    if 0 < ib[13] < sb["blocks"]:
+        apb = bs // 4
+        d = struct.unpack_from("<%dI" % apb, data, offset + ib[13] * bs)
+        runs = []
+        for k, x in enumerate(d):
+            if not x:
+                continue
+            if runs and runs[-1][0] + runs[-1][2] == k and runs[-1][1] + runs[-1][2] == x:
+                runs[-1][2] += 1
+            else:
+                runs.append([k, clip(x), 1])
+        z["dind"] = runs
+        lists = {}
+        for k, x in enumerate(d):
+            if 0 < x < sb["blocks"]:
+                e = struct.unpack_from("<%dI" % apb, data, offset + x * bs)
+                ents = tuple((p + 1, (y - x) if y < (1 << 31) else -1) for p, y in enumerate(e) if y)
+                lists[ents] = lists.get(ents, 0) + 1
+        z["lists"] = [{"n": n, "ents": [list(t) for t in ents]} for ents, n in sorted(lists.items())]
+    return o
 
 
 def one(args):
@@ -144,10 +329,16 @@ def one(args):
     img = os.path.join(work, "m%d.img" % idx)
     mk = os.path.join(b, "misc", "mke2fs")
     fsck = os.path.join(b, "e2fsck", "e2fsck")
+    if "fam" not in c:                          # replay files written before the option families were catalogued
+        c = dict(c, fam=c.get("extra", "") if c.get("extra", "") in ("tree", "offset", "packed", "rootowner") else "", v=0, nbsb=2, part="replay")
+    fm = family(c["fam"], c["v"], c)
+    fstype = fm["fstype"] or c["fstype"]
+    ostr = c["ostr"] if fm["ostr"] is None else fm["ostr"]
+    rev0 = fm["cfgmod"].get("rev0", 0)
     eopts = ["hash_seed=" + HASH_SEED]          # mke2fs keeps only the LAST -E: all extended options go into one list
-    opts = ["-q", "-F", "-t", c["fstype"], "-b", str(c["bs"]), "-U", UUID]
-    if c["ostr"]:
-        opts += ["-O", c["ostr"]]
+    opts = ["-q", "-F", "-t", fstype, "-b", str(c["bs"]), "-U", UUID]
+    if ostr:
+        opts += ["-O", ostr]
     if c["bpg"]:
         opts += ["-g", str(c["bpg"])]
     if c["iratio"]:
@@ -156,42 +347,43 @@ def one(args):
         opts += ["-I", str(c["isz"])]
     if c["ninodes"]:
         opts += ["-N", str(c["ninodes"])]
-    if "bigalloc" in c["ostr"]:
+    if "bigalloc" in ostr:
         opts += ["-C", str(c["bs"] * 4)]
+    if "sparse_super2" in ostr and (c["nbsb"] != 2 or c["part"] == "ss2cell"):
+        eopts.append("num_backup_sb=%d" % c["nbsb"])
     offset = 0
-    xa = list(c.get("extra_args", []))
-    i = 0
-    while i < len(xa):
-        a = xa[i]
-        if a == "-E":
-            v = xa[i + 1].replace("@3x", str(3 * c["blocks"]))
-            eopts.append(v)
-            if v.startswith("offset="):
-                offset = int(v.split("=")[1])
-            i += 2
-            continue
-        if a == "@tree":
-            a = os.path.join(work, "tree")
-        opts.append(a)
-        i += 1
+    for e in fm["eopts"]:
+        eopts.append(e)
+        if e.startswith("offset="):
+            offset = int(e.split("=")[1])
+    opts += [os.path.join(work, "tree") if a == "@tree" else a for a in fm["args"]]
     opts += ["-E", ",".join(eopts)]
     size = c["blocks"] * c["bs"] + offset
 
     def fresh():
         with open(img, "wb") as f:
             f.truncate(size)
-    # effective defaults from tests/mke2fs.conf.in: inode_size 256, inode_ratio by size type (floppy < 3M: 8192, small < 512M: 4096)
-    eff_iratio = c["iratio"] or (8192 if size < 3 * 1024 * 1024 else 4096)
-    eff_isz = c["isz"] or 256
-    feats = want_features(c["fstype"], c["ostr"])
-    line = {"e": "mke2fs", "rc": -1, "model": c["model"], "fsck": -1, "consistent": -1, "nwrites": -1, "repro": -1,
-            "want_features": sorted(feats), "journal_skipped": 0,
+    # effective defaults from tests/mke2fs.conf.in: inode_size 256, inode_ratio by size type (floppy < 3M: 8192, small < 512M: 4096);
+    # an explicit -T usage type replaces the size type ([defaults] inode_ratio 16384 unless the usage type sets one)
+    eff_iratio = c["iratio"] or fm["cfgmod"].get("usage_iratio") or (8192 if size < 3 * 1024 * 1024 else 4096)
+    eff_isz = c["isz"] or fm["cfgmod"].get("usage_isz") or 256
+    feats = want_features(fstype, ostr)
+    if rev0:                                    # revision 0: no feature flags, good-old 128-byte inodes
+        feats = set()
+        eff_isz = 128
+    req = dict(REQ0, **fm["req"])
+    model = c["model"] & fm["model"]
+    line = {"e": "mke2fs", "rc": -1, "model": model, "fsck": -1, "consistent": -1, "nwrites": -1, "repro": -1,
+            "want_features": sorted(feats), "journal_skipped": 0, "req": req,
             "cfg": {"bs": c["bs"], "blocks": c["blocks"], "iratio": eff_iratio, "isz": eff_isz, "bpg": c["bpg"],
                     "resize": 1 if "resize_inode" in feats else 0, "sparse": 1 if "sparse_super" in feats else 0,
                     "ss2": 1 if "sparse_super2" in feats else 0,
-                    "metabg": 1 if "meta_bg" in feats else 0, "is64": 1 if "64bit" in feats else 0, "ninodes": c["ninodes"]},
-            "obs": {"blocks": 0, "first": 0, "bpg": 0, "ipg": 0, "itb": 0, "rsv": 0, "inodes": 0, "gdc": 0, "metabg": 0, "backups": [], "features": [], "backups_badcsum": []},
-            "cmd": " ".join(opts + [str(c["blocks"])]), "extra": c.get("extra", ""), "c": c}
+                    "metabg": 1 if "meta_bg" in feats else 0, "is64": 1 if "64bit" in feats else 0, "ninodes": c["ninodes"],
+                    "nbsb": c["nbsb"], "rszto": fm["cfgmod"].get("rszto", 0)},
+            "obs": {"blocks": 0, "first": 0, "bpg": 0, "ipg": 0, "itb": 0, "rsv": 0, "inodes": 0, "gdc": 0, "metabg": 0, "backups": [], "features": [], "backups_badcsum": [],
+                    "bgs": [0, 0], "stride": 0, "stripe": 0, "logflex": 0, "rblocks": 0, "quota": [], "uid": -1, "gid": -1, "jblocks": 0,
+                    "rsz": {"dindblk": 0, "dind": [], "lists": [], "iblocks": 0, "other": 0}},
+            "cmd": " ".join(opts + [str(c["blocks"])]), "extra": c.get("extra", ""), "part": c.get("part", ""), "c": c}
     # -n first, on an existing zero image, under the recorder
     fresh()
     tr = img + ".nd"
@@ -223,6 +415,7 @@ def one(args):
                        "inodes": sb["inodes"], "gdc": sb["gdc"], "metabg": 1 if "meta_bg" in sb["features"] else 0,
                        "backups": [0] + sbparse.backup_groups(img, sb, offset), "features": sb["features"]}
         line["obs"]["backups_badcsum"] = sbparse.bad_backup_csums(img, sb, line["obs"]["backups"], offset)
+        line["obs"].update(inspect(data1, sb, offset))
     r2, out, err = sh([fsck, "-fn", img + ("?offset=%d" % offset if offset else "")], env=env, timeout=120)
     line["offset"] = offset
     line["fsck"] = r2
@@ -276,15 +469,22 @@ def run(tier):
         except RuntimeError as e:
             die_broken(str(e))
         # (1) model checking of the arithmetic
-        r = T.tlc(os.path.join(SPEC, "MC_Geometry.tla"), os.path.join(SPEC, "MC_Geometry.cfg"), workers=8, timeout=1200)
-        ev.add_tlc(r, "Geometry!Compute over the configuration lattice: GeometryOK, NoLoop, BackupsClosedForm")
+        catp = os.path.join(work, "catalogue.json")
+        r = T.tlc(os.path.join(SPEC, "MC_Geometry.tla"), os.path.join(SPEC, "MC_Geometry.cfg"), workers=4, timeout=1200, xmx="4g",
+                  env={"C07_CATALOGUE": catp})
+        ev.add_tlc(r, "Geometry!Compute over the configuration lattice (incl. sparse_super2 x num_backup_sb x resize_inode, -E resize=): "
+                      "GeometryOK, NoLoop, ResizeInodeOK, BackupsClosedForm, Ss2Slots shape")
         if r.violated:
             vd.violation("model", "Geometry invariant %s violated" % r.violated, {"tlc": r.out[-3000:]})
         elif not r.ok:
             die_broken("TLC failed on MC_Geometry: %s\n%s" % (r.error, r.out[-1500:]))
+        try:
+            cat = json.load(open(catp))
+        except Exception as e:
+            die_broken("TLC did not write the boundary catalogue: %r" % (e,))
         # (2) conformance
         rng = random.Random(seed())
-        cfgs = universe(tier, rng)
+        cfgs = universe(tier, rng, cat)
         lines = run_universe(b, cfgs, work)
         used_reader = False
         if os.environ.get("VERIF_C07_READER", "1") == "1":
@@ -306,14 +506,26 @@ def run(tier):
         ev.cov["states"] += res["distinct"]; ev.cov["transitions"] += res["generated"]
         bad = set(res["bad"])
         accepted = [l for l in lines if l["rc"] == 0]
+        # second pass over the refused lines: does the line show exactly a named deviation of the code (Geometry c.dev)?
+        knowndev = set()
+        if bad:
+            order = sorted(bad)
+            res2 = tracecheck.validate_lines([jl[i] for i in order], os.path.join(SPEC, "Trace_Geometry.tla"),
+                                             os.path.join(SPEC, "Trace_Geometry_dev.cfg"), work, chunk=100)
+            if res2["broken"]:
+                die_broken("TLC failed on the deviation pass: %s\n%s" % (res2["broken"][0]["error"], res2["broken"][0]["tail"][-1500:]))
+            knowndev = set(order[k] for k in range(len(order)) if k not in set(res2["bad"]))
         for bi in sorted(bad):
             l = lines[bi]
+            if bi in knowndev:
+                vd.violation(KNOWN_DEV_KEY, "mke2fs %s: reserved GDT blocks stored by -E resize= survive the meta_bg switch (e2fsck -fn exit %d)" % (l["cmd"], l["fsck"]), {"line": l})
+                continue
             why = []
             if l["fsck"] != 0: why.append("e2fsck -fn exit %d" % l["fsck"])
             if l["consistent"] == 0: why.append("independent oracle: inconsistent %s" % l.get("failed_conjuncts"))
             if l["nwrites"] != 0: why.append("mke2fs -n issued %d write-class calls" % l["nwrites"])
             if l["repro"] != 1: why.append("not reproducible")
-            if not why: why.append("geometry/backups/features differ from Geometry!Compute")
+            if not why: why.append("geometry/backups/resize inode/requested fields/features differ from the specification")
             key = "%s|%s" % (l["cmd"], ";".join(why))
             vd.violation(key, "mke2fs %s: %s" % (l["cmd"], "; ".join(why)), {"line": l})
         ev.cov["evaluations"] = len(lines)
@@ -323,14 +535,32 @@ def run(tier):
         for l in accepted:
             o = l["obs"]
             ev.nontrivial((o["blocks"], o["first"], o["bpg"], o["ipg"], o["itb"], o["rsv"], o["gdc"], o["metabg"], tuple(o["backups"]), tuple(o["features"])))
+        cells = {}
+        for l in accepted:
+            if l["cfg"]["ss2"]:
+                gc = l["obs"]["gdc"]
+                cells.setdefault("nb%d/groups%s/resize%d" % (l["cfg"]["nbsb"], gc if gc < 4 else "4+", 1 if "resize_inode" in l["obs"]["features"] else 0), 0)
+                cells["nb%d/groups%s/resize%d" % (l["cfg"]["nbsb"], gc if gc < 4 else "4+", 1 if "resize_inode" in l["obs"]["features"] else 0)] += 1
+        ev.cov["sparse_super2_cells_accepted"] = cells
+        fams = {}
+        for l in lines:
+            k = l["extra"] or "(none)"
+            fams.setdefault(k, [0, 0])
+            fams[k][0] += 1
+            fams[k][1] += 1 if l["rc"] == 0 else 0
+        ev.cov["option_families_run_accepted"] = fams
+        ev.cov["catalogue_cells"] = {k: len(v) for k, v in cat.items()}
         ev.cov["rule"] = ("configurations = feature set x block size x blocks-per-group x boundary sizes (k*bpg+first+{-1,0,1,40..300}) x inode options, "
-                          "seeded stratified selection; non-trivial = accepted by mke2fs; distinct by the geometry tuple + feature set it produced")
+                          "seeded stratified selection, plus every cell of the TLC-written boundary catalogue (sparse_super2 slots, option families); non-trivial = accepted by mke2fs; distinct by the geometry tuple + feature set it produced")
         ev.cov["independent_consistency_oracle"] = "reader/ext4read.py + Ext4Abs.Consistent" if used_reader else "not available in this run (e2fsck -fn only)"
         for l in accepted[:3]:
             ev.sample({k: l[k] for k in ("cmd", "cfg", "obs", "fsck", "nwrites", "repro", "consistent")})
         ev.assumptions = ["defaults come from the tree's tests/mke2fs.conf.in (inode_size 256, inode_ratio by size type)",
                           "bigalloc configurations are checked for consistency/-n/reproducibility only (cluster arithmetic not yet in Geometry.tla)",
-                          "images <= 64 MiB; journal size/location, RAID stride, offset and -d population are covered by other configurations of this check only where listed in evidence"]
+                          "images <= 64 MiB; journal location, packed_meta_blocks, lazy init, nodiscard, offset and -d population get the generic clauses "
+                          "(e2fsck -fn, Consistent, features, -n, reproducibility); journal size, RAID fields, flex size, reserved percentage, quota types, root owner, "
+                          "-T usage types, revision 0, num_backup_sb and -E resize= are predicted by the specification",
+                          "the reserved-blocks count after a last-group trim is compared with a tolerance of two blocks (double-precision rescaling in ext2fs_initialize)"]
         return vd.finish()
     finally:
         shutil.rmtree(work, ignore_errors=True)
